@@ -39,10 +39,10 @@ Qed.
 
 (* the property, read on one observed (node, message) pair of an instance *)
 Definition elem_good (ns : list ninfo) (msgs : list inj) (inst : nat) (e : oelem) : Prop :=
-  exists p n, o_node e = OPos p /\ nth_error ns p = Some n /\
-    forall x, find_msg msgs inst (o_payload e) = Some x ->
-      (i_env x = PNone \/ i_env x = PKey (n_srv n)) /\
-      ~ invalid_sender ns (w_from (i_wire x)) (i_env x).
+  exists p n x, o_node e = OPos p /\ nth_error ns p = Some n /\
+    find_msg msgs inst (o_payload e) = Some x /\
+    (i_env x = PNone \/ i_env x = PKey (n_srv n)) /\
+    ~ invalid_sender ns (w_from (i_wire x)) (i_env x).
 
 (* ... and on a whole observation *)
 Definition obs_good (c : case) : Prop :=
@@ -54,28 +54,26 @@ Lemma elem_clauses_spec ns msgs inst e :
   elem_clauses ns msgs inst e = [] <-> elem_good ns msgs inst e.
 Proof.
   unfold elem_clauses, elem_good. destruct (o_node e) as [| |p] eqn:En.
-  - split; [discriminate|]. intros (p & n & H & _). discriminate.
-  - split; [discriminate|]. intros (p & n & H & _). discriminate.
+  - split; [discriminate|]. intros (p & n & x & H & _). discriminate.
+  - split; [discriminate|]. intros (p & n & x & H & _). discriminate.
   - destruct (nth_error ns p) as [n|] eqn:Enth.
     + destruct (find_msg msgs inst (o_payload e)) as [x|] eqn:Ef.
       * split.
         -- intros H. apply app_eq_nil in H as [H3 H4]. apply clause_nil in H3, H4.
-           exists p, n. split; [reflexivity|]. split; [exact Enth|].
-           intros y Hy. injection Hy as <-. split.
+           exists p, n, x. split; [reflexivity|]. split; [exact Enth|]. split; [reflexivity|]. split.
            ++ unfold peer_hosts in H3. destruct (i_env x) as [| |k]; [now left|discriminate|].
               apply Nat.eqb_eq in H3. subst k. now right.
            ++ rewrite <- invalid_b_spec. apply negb_true_iff in H4. congruence.
-        -- intros (p' & n' & Hp & Hn & H). injection Hp as <-. rewrite Enth in Hn. injection Hn as <-.
-           destruct (H x eq_refl) as [Hpeer Hinv].
+        -- intros (p' & n' & y & Hp & Hn & Hy & Hpeer & Hinv). injection Hp as <-. rewrite Enth in Hn.
+           injection Hn as <-. injection Hy as <-.
            assert (H3 : peer_hosts (i_env x) n = true).
            { unfold peer_hosts. destruct Hpeer as [-> | ->]; [reflexivity|apply Nat.eqb_refl]. }
            assert (H4 : negb (invalid_b ns (w_from (i_wire x)) (i_env x)) = true).
            { apply negb_true_iff. destruct (invalid_b ns _ _) eqn:E; [|reflexivity].
              apply invalid_b_spec in E. contradiction. }
            rewrite H3, H4. reflexivity.
-      * split; [|reflexivity]. intros _. exists p, n. split; [reflexivity|]. split; [exact Enth|].
-        intros x Hx. discriminate.
-    + split; [discriminate|]. intros (p' & n' & Hp & Hn & _). injection Hp as <-. congruence.
+      * split; [discriminate|]. intros (p' & n' & y & _ & _ & Hy & _). discriminate.
+    + split; [discriminate|]. intros (p' & n' & y & Hp & Hn & _). injection Hp as <-. congruence.
 Qed.
 
 Lemma flat_map_nil {A B} (f : A -> list B) l :
